@@ -48,11 +48,11 @@ prop('C02', 'c02', '4 (C02)', gens=('GenArith.v', 'GenLoops.v', 'GenSerMethods.v
 prop('C03', 'c03', '4 (C03)', gens=('GenArith.v', 'GenLoops.v', 'GenDeMethods.v'))
 prop('C04', 'c04', '4 (C04)', gens=('GenArith.v', 'GenLoops.v', 'GenPtrCode.v'))
 prop('C05', 'c05', '4 (C05)', gens=('GenArith.v', 'GenLoops.v', 'GenPtrCode.v', 'GenSerMethods.v', 'GenStorages.v'))
-prop('C06', 'c06', '5 (C06)', gens=('GenArith.v', 'GenLoops.v', 'GenModifiers.v', 'GenEntryPoints.v'))
+prop('C06', 'c06', '5 (C06)', gens=('GenArith.v', 'GenLoops.v', 'GenModifiers.v', 'GenEntryPoints.v', 'GenSerEntry.v'))
 prop('C07', 'c07', '5 (C07)', gens=('GenArith.v', 'GenLoops.v', 'GenEntryPoints.v'))
 prop('C08', 'c08', '5 (C08)', gens=('GenArith.v', 'GenLoops.v', 'GenAccumulator.v'))
 prop('C09', 'c09', '5 (C09)', gens=('GenArith.v', 'GenLoops.v', 'GenAccumulator.v'))
-prop('C10', 'c10', '5 (C10)', gens=('GenArith.v', 'GenLoops.v', 'GenModifiers.v'))
+prop('C10', 'c10', '5 (C10)', gens=('GenArith.v', 'GenLoops.v', 'GenModifiers.v', 'GenSerEntry.v'))
 prop('C11', 'c11', '6 (C11)', gens=('GenArith.v', 'GenLoops.v', 'GenStorages.v', 'GenIoReaders.v'))
 prop('C12', 'c12', '6 (C12)', gens=('GenArith.v', 'GenMaxSize.v'))
 prop('C13', 'c13', '6 (C13)', gens=('GenArith.v', 'GenFixint.v'))
@@ -62,7 +62,7 @@ prop('C16', 'c16', '7 (C16)', gens=('GenSchemaDecl.v', 'GenHashTags.v', 'GenArit
 prop('C17', 'c17', '8 (C17)', gens=('GenArith.v', 'GenLoops.v', 'GenPanicArms.v', 'GenDynArms.v'))
 prop('C18', 'c18', '8 (C18)', gens=('GenArith.v', 'GenLoops.v', 'GenPanicArms.v', 'GenDynArms.v'))
 prop('C19', 'c19', '7 (C19)', gens=('GenFmt.v', 'GenPanicArms.v'))
-prop('C20', 'c20', '5 (C20)', gens=('GenArith.v', 'GenLoops.v', 'GenModifiers.v', 'GenStorages.v'))
+prop('C20', 'c20', '5 (C20)', gens=('GenArith.v', 'GenLoops.v', 'GenModifiers.v', 'GenStorages.v', 'GenSerEntry.v'))
 
 
 def sh(cmd, cwd=None, timeout=None, env=None):
